@@ -105,3 +105,96 @@ func runSharedRules(rep *vh.Report, env vh.Env) {
 		rep.Floor("shared_rules_logins_completed", 20)
 	}
 }
+
+// Stream c13-shared-target: several routes that share one `to` (a rewrite service with extra routes that
+// state only another `from`; two services pointing at one backend). Whatever sso shares between such
+// routes (reverse proxies, transports, connection pools) the backend address is still computed from the
+// route the request matched: every host of every route reaches the backend, with the Host the route
+// kind prescribes. (Added after seeded change C13m - one reverse proxy shared by upstreams with equal
+// service / to / type / options, keyed without `from` - was missed: no two routes shared a `to`.)
+func runSharedTarget(rep *vh.Report, env vh.Env) {
+	only, skip := env.Only("c13-shared-target")
+	if skip {
+		return
+	}
+	yml := `
+- service: pool
+  default:
+    from: ^a-(.*)\.tgt\.sso\.test$
+    to: "{{backend_tgt}}"
+    type: rewrite
+    options:
+      allowed_email_domains:
+        - corp.test
+    extra_routes:
+      - from: ^b-(.*)\.tgt\.sso\.test$
+        type: rewrite
+      - from: ^(.*)\.c\.tgt\.sso\.test$
+        type: rewrite
+- service: plain
+  default:
+    from: p1.tgt.sso.test
+    to: "{{backend_tgt}}"
+    options:
+      allowed_email_domains:
+        - corp.test
+    extra_routes:
+      - from: p2.tgt.sso.test
+- service: twin
+  default:
+    from: ^t-(.*)\.tgt\.sso\.test$
+    to: "{{backend_tgt}}"
+    type: rewrite
+    options:
+      allowed_email_domains:
+        - corp.test
+`
+	ps, err := sut.NewProxyStack(sut.ProxyOpts{RawYAML: yml, ExtraBackends: []string{"tgt"}})
+	if err != nil {
+		rep.Inconclusive("shared-target stack did not start: " + err.Error())
+		return
+	}
+	defer ps.Close()
+	hosts := []struct{ host, route string }{
+		{"a-%s.tgt.sso.test", "rewrite-parent"}, {"b-%s.tgt.sso.test", "rewrite-extra-route-1"}, {"%s.c.tgt.sso.test", "rewrite-extra-route-2"},
+		{"p1.tgt.sso.test", "simple-parent"}, {"p2.tgt.sso.test", "simple-extra-route"}, {"t-%s.tgt.sso.test", "rewrite-other-service-same-to"},
+	}
+	n := env.Pick(120, 1800)
+	vh.ForEach(n, 0, only, func(i int) {
+		r := vh.CaseRNG(env.Seed, "c13-shared-target", i)
+		h := hosts[i%len(hosts)]
+		host := h.host
+		if strings.Contains(host, "%s") {
+			host = fmt.Sprintf(host, word(r, 3))
+		}
+		uid := sut.NewID()
+		s := ps.Session(host, "user"+uid+"@corp.test", nil)
+		rs := ps.Client.Do(sut.Req{Host: host, Target: "/t/" + uid, Cookies: []string{ps.CookieName + "=" + ps.Seal(s)}})
+		rep.Eval()
+		if rs.Err != nil {
+			rep.Count("client_errors", 1)
+			return
+		}
+		rep.Distinct("shared-target|" + h.route)
+		hits := ps.Hits(rs.ID)
+		if len(hits) == 0 {
+			rep.Violate("c13-shared-target", i, "backend: request-not-delivered-to-the-routes-backend route="+h.route+" to=shared-with-other-routes",
+				fmt.Sprintf("an authorised request for %q (%s) did not reach the backend its route names: status %d", host, h.route, rs.Status),
+				map[string]interface{}{"index": i, "host": host, "route": h.route, "status": rs.Status})
+			return
+		}
+		if hits[0].Backend != "tgt" {
+			rep.Violate("c13-shared-target", i, "backend: hit-on-wrong-backend route="+h.route+" to=shared-with-other-routes",
+				fmt.Sprintf("request for %q reached backend %q", host, hits[0].Backend), map[string]interface{}{"index": i, "host": host, "route": h.route})
+			return
+		}
+		rep.Count("shared_target_delivered", 1)
+		rep.Count("shared_target_delivered_"+h.route, 1)
+	})
+	if only < 0 {
+		rep.Floor("shared_target_delivered", 90)
+		for _, h := range hosts {
+			rep.Floor("shared_target_delivered_"+h.route, 10)
+		}
+	}
+}
